@@ -393,7 +393,10 @@ def _create_parsing_expression(tree):
             if isinstance(left, ex.Ref) and left.name == 'super':
                 impl_name = ex.implementation_name(op.field)
                 result = ex.Ref(f'super.{op.field}')
+                # The super-grammar is the parent of the grammar that contains
+                # this expression (not of the grammar that is running).
                 result._resolved = f'_super_ctx.{impl_name}'
+                result.is_super = True
                 return result
 
         if isinstance(op, parser.Repeat):
